@@ -60,7 +60,11 @@ PLANS = [("Ws_sim.cfg", "pull", 1, [1, 3, 0], 300), ("Ws1000_sim.cfg", "pull", 1
 
 
 def run(v, tier, rng):
+    from checks.httpchunk import run_chunks
+    nch = run_chunks(v, tier, rng)
     run_ws(v, tier, PLANS)
+    v.cov["distinct_nontrivial"] += nch
+    v.cov["rule"] += "; plus every edge of the HttpChunk graph (chunked transfer decoder) replayed token by token and re-parsed under 9 segmentations"
 
 
 def run_ws(v, tier, plans, mc=True):
@@ -91,6 +95,6 @@ def run_ws(v, tier, plans, mc=True):
     v.cov["rule"] = ("behaviours of Ws.tla (depth 14: 17 kinds of upgrade request incl. header blocks larger than the read buffer and over-long lines, data frames fin/cont x sizes 0,1,3,5 units, 40 malformed or "
                      "control frame shapes, sends of 0,1,3,5 units with fragment size 2 units) x I/O clamps x scales; distinct = behaviour x clamp runs")
     v.assumptions += ["both roles of the ws transport: listener (driver = client) and dialer (driver = server: the emitted upgrade request, "
-                      "validation of the 101 response, masking of every emitted frame, redial after a refused upgrade)", "the HTTP client API, chunked transfer decoding and static file handlers of the "
-                      "HTTP server are outside the specification (only what the ws upgrade path reaches)",
+                      "validation of the 101 response, masking of every emitted frame, redial after a refused upgrade)", "chunked transfer decoding is bound at nni_http_chunks_parse (data/HttpChunk.tla), not through a connection; the HTTP client API and "
+                      "static file handlers of the HTTP server are outside the specification (only what the ws upgrade path reaches)",
                       "real time: bounded waits; segmentation through the I/O clamp hook in nni_aio_iov_clamp_len"]
